@@ -9,6 +9,7 @@ import (
 	"math"
 	"rdmverif/svc"
 	"sort"
+	"strings"
 
 	. "rdmverif/engine"
 )
@@ -261,4 +262,22 @@ func wideRequest(method string, n int) M {
 		vals[0][j], vals[1][j], vals[2][j] = float64((j*3)%7)+1, float64((j*5+2)%7)+1, float64((j*2+4)%7)+1
 	}
 	return genericRequest(method, cids, 1, []string{"a", "b", "c"}, vals, []string{"c", "a"}, w)
+}
+
+// pascalKeys / camelKeys: option keys spelled the way the README prints them (ReferenceCriterionType, MixingRatio ...) and
+// back; decoding of options is case-insensitive.
+func pascalKeys(m M) M {
+	out := M{}
+	for k, v := range m {
+		out[strings.ToUpper(k[:1])+k[1:]] = v
+	}
+	return out
+}
+
+func camelKeys(m map[string]interface{}) map[string]interface{} {
+	out := map[string]interface{}{}
+	for k, v := range m {
+		out[strings.ToLower(k[:1])+k[1:]] = v
+	}
+	return out
 }
